@@ -30,7 +30,9 @@ def weight(img: darsia.Image, weight: Union[float, int, darsia.Image]) -> darsia
     """
     weighted_img = img.copy()
     if isinstance(weight, (float, int, np.floating, np.integer)):
-        weighted_img.img *= weight
+        # Not in place: a float weight turns integer-typed data (e.g. uint8 photographs)
+        # into floats, as for array weights below.
+        weighted_img.img = np.multiply(weighted_img.img, weight)
 
     elif isinstance(weight, darsia.Image):
         equal_coordinate_system, log = darsia.check_equal_coordinatesystems(
